@@ -2075,14 +2075,20 @@ class WassersteinDistanceBregman(VariationalWassersteinDistance):
                 break
 
         # Solve for the pressure by solving a single Newton iteration
-        newton_jacobian, _, _ = self._update_regularization(flux)
         solution_i = np.zeros_like(rhs)
         solution_i[self.flux_slice] = flux.copy()
-        newton_residual = self.optimality_conditions(rhs, solution_i)
-        newton_update, _ = self.linear_solve(
-            newton_jacobian, newton_residual, solution_i
-        )
-        solution_i[self.pressure_slice] = newton_update[self.pressure_slice]
+        try:
+            newton_jacobian, _, _ = self._update_regularization(flux)
+            newton_residual = self.optimality_conditions(rhs, solution_i)
+            newton_update, _ = self.linear_solve(
+                newton_jacobian, newton_residual, solution_i
+            )
+            solution_i[self.pressure_slice] = newton_update[self.pressure_slice]
+        except Exception:
+            # The pressure is not unique in regions without flux. As for the iteration,
+            # return the current (flux) solution and flag the run as not converged.
+            warnings.warn("Bregman pressure recovery failed; pressure is set to zero.")
+            converged = False
 
         # Summarize profiling (time in seconds, memory in GB)
         total_timings = self._analyze_timings(convergence_history["timing"])
